@@ -1,17 +1,22 @@
-(** C01 - property theorems (statements only; proofs live in the model files) *)
+(** C01 - property theorems (statements only; proofs live in the library files) *)
 From Coq Require Import ZArith NArith PArith List Bool.
-From Cohdl Require Import Vhdl.Value Vhdl.Syntax Vhdl.Sem Equiv.Explore Equiv.VhdlTS Models.Coro.
+From Cohdl Require Import Vhdl.Value Vhdl.Syntax Vhdl.Sem Vhdl.DefAssign Vhdl.DeadVars Equiv.Explore Equiv.VhdlTS Equiv.RefTS Equiv.Monitor Equiv.StoreTS Models.Coro.
 Import ListNotations.
 
-(** The per-program obligation is a proof for all input sequences of all lengths:
-    if the reflective checker answers OK for the parsed design [d] and the
-    reference semantics of program [p], their output traces coincide on every
-    admissible input sequence. *)
+(** The per-program obligation is a proof for all input sequences of all lengths: if the reflective
+    checker answers OK for the parsed design [d] and the reference semantics of program [p], their
+    output traces coincide on every admissible input sequence. *)
 Theorem C01_explore_sound :
-  forall (d : design) (p : stmt) alphabet assume fuel inits,
-    is_ok (vcheck d false (ref_step p) rstate_eqb rhash alphabet assume fuel inits) = true ->
-    forall a b, In (a, b) inits ->
-    forall ins, admissible (ref_step p) alphabet assume b ins ->
-      traceA (vstep d false) a ins = traceB (ref_step p) b ins.
-Proof. intros d p alphabet assume fuel inits. exact (vcheck_sound d false (ref_step p) rstate_eqb rstate_eqb_ok rhash alphabet assume fuel inits). Qed.
+  forall (d : design) (p : stmt) alphabet assume fuel,
+    conc_all_ok (auto_Ts d) d = true ->
+    is_ok (vcheck_s d false (ref_step p) rstate_eqb rhash alphabet assume fuel rinit) = true ->
+    forall ins, admissible (ref_step p) alphabet assume rinit ins ->
+      traceA (sstep d false) (power_up_s d) ins = traceB (ref_step p) rinit ins.
+Proof. intros d p alphabet assume fuel. exact (vcheck_s_sound d false (ref_step p) rstate_eqb rstate_eqb_ok rhash alphabet assume fuel rinit). Qed.
 Print Assumptions C01_explore_sound.
+
+Theorem C01_normalisation_sound :
+  forall T d mid, conc_all_ok T d = true -> forall ins s n, srel_s T s n ->
+    traceA (sstep d mid) s ins = traceA (sstep_n d T mid) n ins.
+Proof. exact norm_traces_s. Qed.
+Print Assumptions C01_normalisation_sound.
